@@ -92,10 +92,11 @@ def run(ctx):
              "one-step list, every kind of refusal (8) for begin / commit / rollback, nil functions as steps, "
              "steps that call Transact again on the handle they got, 14 (42) lists of up to 300 (1000) steps, "
              "60 (1500) rounds of 2..6 calls released together on one fresh pool (each one trace) "
-             "+ seeded random lists up to 12 (24) steps; a failing step returns one of 13 kinds of error "
-             "(own, driver statement error, wrapped, gorm.ErrRecordNotFound plain/wrapped, MySQL 1062 / "
-             "1105 duplicate / 1213, gRPC NotFound/AlreadyExists, sql.ErrTxDone, context.Canceled, "
-             "gorm.ErrInvalidTransaction) - the specification treats them all alike; "
+             "+ seeded random lists up to 12 (24) steps; a failing step returns one of ~130 kinds of error "
+             "(own, driver statement error, wrapped, nested Transact's, MySQL 1062/1105 duplicate, gRPC status, and "
+             "every error value database/sql, database/sql/driver, gorm, go-sql-driver/mysql, context, io, net / "
+             "os / syscall know by name, each plain and %w-wrapped; each kind is enumerated alone, before and "
+             "after succeeding steps); the same values answer refused begins / commits / rollbacks - the specification treats them all alike; "
              "arguments are raw steps or (nested / empty) Combine groups",
         explanation="Transact.tla model-checked exhaustively; every driver event (begin, exec+in-tx flag, "
                     "commit, rollback), every step entry/exit and the returned error class of every real "
